@@ -20,7 +20,7 @@ ERROR awkward_NumpyArray_unique_strings_uint8(
 
   for (int64_t i = 0;  i < offsetslength - 1;  i++) {
     differ = false;
-    if (offsets[i + 1] - offsets[i] != slen) {
+    if (i == 0  ||  offsets[i + 1] - offsets[i] != slen) {
       differ = true;
     }
     else {
